@@ -72,12 +72,30 @@ FinalStopped(x) == x.kind = "Stopped" /\ ~x.sreg          \* delivered by cleanu
 SelfStopping(issued, events, p, d) ==
   \E x \in ({d} \cup Anc(d)) \cap Desc(p) :
       (\E k \in 1..Len(issued) : TokTarget[issued[k]] = x) \/ Exhausted(events, x)
+(* exhausting the restart budget stops the actor and everything below it.  kf = TRUE carves out the consequence of
+   known finding KF-PENDINGSTOP: the shutdown poisons the children and waits; a child that is being stopped by
+   something else at that moment never signals that request, so the exhausted parent waits for ever, still registered *)
+CleanAfterExhaustion(events, issued, regf, kf) ==
+  \A a \in Actors : Exhausted(events, a) =>
+     \/ ~regf[a] /\ \A d \in Desc(a) : ~regf[d]
+     \/ kf /\ \E d \in Desc(a) : SelfStopping(issued, events, a, d)
+
 KidsFirst(log, issued, events, kf) ==
   \A j \in Idx(log) : FinalStopped(log[j]) =>
      \A d \in Desc(log[j].a) :
         \/ kf /\ SelfStopping(issued, events, log[j].a, d)
         \/ /\ d \notin log[j].alive
            /\ (\E i \in 1..(j - 1) : log[i].a = d) => (\E i \in 1..(j - 1) : log[i].a = d /\ FinalStopped(log[i]))
+(* at quiescence an actor that lived and is no longer registered has ended: the last thing it handled is a Stopped
+   delivered after it was unregistered and after all its descendants were gone (whatever made it stop: Stop, Poison,
+   parent shutdown or an exhausted restart budget) *)
+LastIdx(log, a) == CHOOSE j \in Idx(log) : log[j].a = a /\ \A i \in Idx(log) : log[i].a = a => i <= j
+TerminalStopped(log, issued, events, regf, kf) ==
+  \A a \in Actors : (~regf[a] /\ \E i \in Idx(log) : log[i].a = a) =>
+     LET j == LastIdx(log, a) IN
+       /\ FinalStopped(log[j])
+       /\ \A d \in Desc(a) : (kf /\ SelfStopping(issued, events, a, d)) \/ d \notin log[j].alive
+
 (* Children(): never lists a child that is gone, and lists every registered child that is not in the course of
    being stopped (a child leaves the table when its own shutdown begins) *)
 ChildrenExact(log, issued, events) ==
